@@ -28,20 +28,21 @@ Theorem C06_write_terminates : forall cap buf cs, 1 <= cs ->
 Proof. intros cap buf cs H s t s' St. eapply WPipe.step_decreases; eauto. Qed.
 Print Assumptions C06_write_terminates.
 
-(* read sessions: for every file content, every reader behaviour whose single requests fit the
-   buffer, every number of read() calls before close() (early close included), every interleaving *)
+(* read sessions: for every file content, every reader behaviour (any request sizes), every number of
+   read() calls before close() (early close included), every initial buffer size, every interleaving *)
 Theorem C06_read_stuck_free : forall cap buf, 1 <= cap ->
-  forall c p k s, RPipe.req_le buf p -> RPipe.reach cap buf c p k s -> ~ RPipe.finished s ->
-  exists t s', RPipe.step cap buf t s = Some s'.
-Proof. intros cap buf H c p k s Hp R NF. apply RPipe.stuck_free; auto. eapply RPipe.inv_reach; eauto. Qed.
+  forall c p k s, RPipe.reach cap buf c p k s -> ~ RPipe.finished s ->
+  exists t s', RPipe.step cap t s = Some s'.
+Proof. intros cap buf H c p k s R NF. apply RPipe.stuck_free; auto. eapply RPipe.inv_reach; eauto. Qed.
 Print Assumptions C06_read_stuck_free.
 
-(* the hypothesis is necessary: a single request larger than the buffer deadlocks (known finding) *)
-Theorem C06_read_request_above_buffer_refuted :
-  RPipe.reach 10 2 [[1; 2]; [3; 4]] dead_prog 1 dead3 /\ ~ RPipe.finished dead3 /\
-  RPipe.step 10 2 RPipe.TA dead3 = None /\ RPipe.step 10 2 RPipe.TW1 dead3 = None /\ RPipe.step 10 2 RPipe.TW2 dead3 = None.
-Proof. exact read_deadlock_refuted. Qed.
-Print Assumptions C06_read_request_above_buffer_refuted.
+(* the former deadlock — buffer 2, one request of 3 bytes, containers of 2 bytes — now runs to the end:
+   read() raises the buffer size to the request before it waits (C15_read_grows_buffer ties that to the source) *)
+Theorem C06_read_request_above_buffer_finishes :
+  let s := run_sched 10 40 (RPipe.init 2 [[1; 2]; [3; 4]] big_prog 1) in
+  RPipe.a_pc s = RPipe.ADone /\ RPipe.w1 s = RPipe.W1Done /\ RPipe.w2 s = RPipe.W2Done /\ RPipe.got s = [Some 1] /\ bufsz s = 3.
+Proof. exact big_request_finishes. Qed.
+Print Assumptions C06_read_request_above_buffer_finishes.
 
 (* what the models assume about File.cpp holds for the source as it is now *)
 Theorem C06_code_shape :
